@@ -56,6 +56,8 @@ def owner_of(P, f):
 
 
 def run(ctx):
+    from .C13 import tagged_dropins_all_erased
+    tagged_dropins_all_erased(ctx)
     # locals / parameters the rules below refer to by name (a rename makes the analysis 'broken', never a violation)
     ctx.anchor(ctx.fn1('Oomd::FsDropInService::processDropInAdd'), 'file')
     ctx.anchor(ctx.fn1('Oomd::FsDropInService::processDropInRemove'), 'file')
